@@ -30,9 +30,30 @@
 //   above 2^16 are jumped by presetting the static `nonce` (a reachable state), which reaches 2^32 … 2^56 and the
 //   wrap 2^64.  If the repository's file has no such static any more this build does not compile and only the
 //   black-box boundaries remain.
-// Environment: VERIF_SEED, VERIF_THREADS (T), VERIF_REQS (R per thread), VERIF_TIER, VERIF_BOUNDARY.
+// First-request family (VERIF_FIRST="<mode>:<stagger-us>", VERIF_SLOWSEED="<pre-us>:<chunk>:<gap-us>"; one FRESH process
+//   per run, several per check; built without a sanitizer = real speed).  The START of the process's history under
+//   concurrency: no request has been made, `init` is 0, the static key array is all zero, and the entropy source is
+//   SLOW: the harness's nfl::randombytes waits <pre-us> before it writes anything, then delivers the 32 key bytes in
+//   pieces of <chunk> bytes with <gap-us> between the pieces (a blocking /dev/random, short reads: C19's subject) -
+//   the library is not changed, only the time its seeding call takes.  T threads make their FIRST requests
+//       mode 0 barrier (released together)      mode 1 linear stagger (thread i starts i*stagger after thread 0)
+//       mode 2 one leader, the others together one stagger later      mode 3 random delays in [0, T*stagger]
+//       mode 4 no barrier: every thread starts as soon as it has been created
+//   so that first requests arrive before, during (nothing written / some pieces written) and after the seeding call.
+//   EVERY returned buffer is then identified: it must be the Salsa20 keystream of a nonce of {0..N-1} under the key
+//   that randombytes delivered (g_key: the harness knows it).  A buffer that is not is searched among the keystreams
+//   of the 32 PARTIALLY WRITTEN keys (first p bytes of the process key, the rest zero; p = 0 is the ALL-ZERO key of
+//   the static array).  One line per request, checked by the Lean driver against the executable Salsa20 specification
+//   (Spec/Salsa20.lean: stream key (LE64 nonce) len):
+//       conc18k <T> <mode> <stagger> <pre> <chunk> <gap> <thread> <request> <nonce | -1> <keyclass> <len> <key[32]> => <bytes>
+//   keyclass 0 = the process key, 1+p = the key with only its first p bytes written, 99 = no (key, nonce) found;
+//   then the history line   conc18f <T> <mode> <stagger> <pre> <chunk> <gap> <N> => <as conc18>.
+// Environment: VERIF_SEED, VERIF_THREADS (T), VERIF_REQS (R per thread), VERIF_TIER, VERIF_BOUNDARY, VERIF_FIRST, VERIF_SLOWSEED.
 #include <atomic>
+#include <chrono>
 #include <thread>
+#include <unistd.h>
+#include <algorithm>
 #include <unordered_map>
 #include <nfl.hpp>
 #include "nfl/prng/crypto_stream_salsa20.h"
@@ -44,11 +65,26 @@ extern "C" void __tsan_on_report(void*) { g_reports.fetch_add(1, std::memory_ord
 static unsigned char g_key[32];
 static std::atomic<int> g_seed_calls{0};
 
+// slow entropy source (first-request family): nothing is written for g_slow_pre microseconds, then the bytes arrive
+// in pieces of g_slow_chunk bytes, g_slow_gap microseconds apart.  All zero = immediate delivery (every other mode).
+static unsigned g_slow_pre = 0, g_slow_chunk = 0, g_slow_gap = 0;
+static void pause_us(unsigned us) {
+  if (!us) return;
+  if (us >= 200) { usleep(us); return; }
+  auto t1 = std::chrono::steady_clock::now() + std::chrono::microseconds(us);
+  while (std::chrono::steady_clock::now() < t1) std::this_thread::yield();
+}
+
 namespace nfl {
-// replaces lib/prng/randombytes.cpp: fixed key, call counter
+// replaces lib/prng/randombytes.cpp: fixed key, call counter, controllable duration
 void randombytes(unsigned char* x, unsigned long long n) {
   g_seed_calls.fetch_add(1);
-  for (unsigned long long i = 0; i < n; i++) x[i] = g_key[i % 32];
+  pause_us(g_slow_pre);
+  const unsigned long long chunk = g_slow_chunk ? g_slow_chunk : n;
+  for (unsigned long long i = 0; i < n; i++) {
+    if (i && i % chunk == 0) pause_us(g_slow_gap);
+    ((volatile unsigned char*)x)[i] = g_key[i % 32];
+  }
 }
 }  // namespace nfl
 #ifdef FRB_WHITEBOX
@@ -91,6 +127,15 @@ NOTSAN static void salsa20_stream(unsigned char* out, uint64_t nonce_val, const 
   for (uint64_t b = 0; b < kRefLen / 64; b++) salsa20_block(out + 64 * b, n, b, k);
 }
 
+NOTSAN static void salsa20_stream_len(unsigned char* out, size_t len, uint64_t nonce_val, const unsigned char k[32]) {
+  unsigned char n[8], blk[64];
+  for (int i = 0; i < 8; i++) n[i] = (nonce_val >> (8 * i)) & 0xff;
+  for (size_t b = 0; 64 * b < len; b++) { salsa20_block(blk, n, b, k); memcpy(out + 64 * b, blk, len - 64 * b < 64 ? len - 64 * b : 64); }
+}
+
+// first-request family: how the threads start and how slowly the key arrives (see the head of the file)
+struct FirstCfg { unsigned mode = 0, stagger = 0; std::vector<uint64_t> delay_us; };
+
 struct Req { unsigned len = 0; std::vector<unsigned char> data; std::vector<uint32_t> cand; int64_t nonce = -1; uint64_t nonce_val = 0; };
 
 // augmenting-path bipartite matching (requests with several candidates)
@@ -107,7 +152,7 @@ static bool augment(size_t r, std::vector<Req*>& reqs, std::vector<int64_t>& own
 // nonces n0 … n0+N-1 (mod 2^64); `pre` = requests already made by the main thread that belong to the history (the
 // probe of the boundary mode; thread index T).  `refNonce` = the nonces whose reference keystreams are computed.
 static int burst(const std::string& lhs, unsigned T, unsigned R, uint64_t seed, uint64_t n0, const std::vector<unsigned>& lens,
-                 bool first_fixed, std::vector<Req> pre, const std::vector<uint64_t>& refNonce) {
+                 bool first_fixed, std::vector<Req> pre, const std::vector<uint64_t>& refNonce, const FirstCfg* fc = nullptr) {
   std::vector<std::vector<Req>> per(T + 1);
   for (unsigned i = 0; i < T; i++) {
     vh::Rng rng(seed * 7919 + i);
@@ -118,15 +163,25 @@ static int burst(const std::string& lhs, unsigned T, unsigned R, uint64_t seed, 
   per[T] = std::move(pre);
   std::atomic<unsigned> ready{0};
   std::atomic<bool> go{false};
+  std::chrono::steady_clock::time_point t_go;
+  const bool spawn = fc && fc->mode == 4;      // no barrier: a thread starts as soon as it exists
+  if (spawn) go.store(true);
   std::vector<std::thread> th;
   for (unsigned i = 0; i < T; i++)
     th.emplace_back([&, i] {
       ready.fetch_add(1);
       while (!go.load(std::memory_order_acquire)) {}   // spin: all threads hit the generator at the same moment
+      if (fc && !spawn && fc->delay_us[i]) {           // … or at chosen distances from that moment
+        auto t1 = t_go + std::chrono::microseconds(fc->delay_us[i]);
+        while (std::chrono::steady_clock::now() < t1) {}
+      }
       for (auto& q : per[i]) nfl::fastrandombytes(q.data.data(), q.len);
     });
-  while (ready.load() < T) std::this_thread::yield();
-  go.store(true, std::memory_order_release);   // (phase 1: no request has been made in this process so far)
+  if (!spawn) {
+    while (ready.load() < T) std::this_thread::yield();
+    t_go = std::chrono::steady_clock::now();
+    go.store(true, std::memory_order_release);   // (phase 1: no request has been made in this process so far)
+  }
   for (auto& t : th) t.join();
 
   // ---- identification
@@ -188,6 +243,50 @@ static int burst(const std::string& lhs, unsigned T, unsigned R, uint64_t seed, 
     all[r]->nonce = idx[r] < 0 ? -1 : 0;
     all[r]->nonce_val = idx[r] < 0 ? 18446744073709551615ULL : refNonce[(size_t)idx[r]];
   }
+  size_t wrongkey = 0;
+  if (fc) {
+    // every buffer against the key randombytes delivered; the unidentified ones against the partially written keys
+    const uint64_t NN = N + 16;
+    std::vector<unsigned char> tmp(kRefLen);
+    size_t r = 0;
+    for (unsigned i = 0; i <= T; i++)
+      for (unsigned j = 0; j < per[i].size(); j++, r++) {
+        Req& q = per[i][j];
+        long long nonce = idx[r] < 0 ? -1 : (long long)refNonce[(size_t)idx[r]];
+        int kclass = idx[r] < 0 ? 99 : 0;
+        for (unsigned p = 0; kclass == 99 && p < 32; p++) {
+          unsigned char k2[32] = {0};
+          memcpy(k2, g_key, p);
+          for (uint64_t n = 0; n < NN; n++) {
+            salsa20_stream_len(tmp.data(), q.len < 64 ? q.len : 64, n, k2);
+            if (memcmp(tmp.data(), q.data.data(), q.len < 64 ? q.len : 64)) continue;
+            salsa20_stream_len(tmp.data(), q.len, n, k2);
+            if (memcmp(tmp.data(), q.data.data(), q.len)) continue;
+            kclass = 1 + (int)p; nonce = (long long)n;
+            break;
+          }
+        }
+        if (kclass) {
+          if (wrongkey++ < 4) {
+            char hex[3 * 16 + 1] = "";
+            for (unsigned b = 0; b < q.len && b < 16; b++) snprintf(hex + 3 * b, 4, "%02x ", q.data[b]);
+            if (kclass == 99)
+              fprintf(stderr, "conc18: first-request run (T=%u mode=%u stagger=%uus seeding pre=%uus chunk=%u gap=%uus): thread %u request %u (%u bytes: %s…) is the keystream of NO nonce 0..%llu under the process key, the all-zero key or a partially written key\n",
+                      T, fc->mode, fc->stagger, g_slow_pre, g_slow_chunk, g_slow_gap, i, j, q.len, hex, (unsigned long long)NN - 1);
+            else
+              fprintf(stderr, "conc18: first-request run (T=%u mode=%u stagger=%uus seeding pre=%uus chunk=%u gap=%uus): thread %u request %u (%u bytes: %s…) is the keystream of nonce %lld under %s, not under the process key\n",
+                      T, fc->mode, fc->stagger, g_slow_pre, g_slow_chunk, g_slow_gap, i, j, q.len, hex, nonce,
+                      kclass == 1 ? "the ALL-ZERO key (the static key array before randombytes has written it)"
+                                  : (std::string("a PARTIALLY WRITTEN key (first ") + std::to_string(kclass - 1) + " bytes of the process key, the rest zero)").c_str());
+          }
+        }
+        printf("conc18k %u %u %u %u %u %u %u %u %lld %d %u", T, fc->mode, fc->stagger, g_slow_pre, g_slow_chunk, g_slow_gap, i, j, nonce, kclass, q.len);
+        for (int b = 0; b < 32; b++) printf(" %u", g_key[b]);
+        printf(" =>");
+        for (unsigned b = 0; b < q.len; b++) printf(" %u", q.data[b]);
+        printf("\n");
+      }
+  }
   printf("%s => %d %d", lhs.c_str(), g_seed_calls.load(), g_reports.load());
   // program order per thread; the main thread's probe (index T) precedes the burst
   for (unsigned ii = 0; ii <= T; ii++) {
@@ -237,6 +336,35 @@ static int phase1(unsigned T, unsigned R, uint64_t seed) {
   char lhs[96];
   snprintf(lhs, sizeof lhs, "conc18 %u 0 %zu", T, N);
   return burst(lhs, T, R, seed, 0, kLens, true, {}, refs);
+}
+
+// ---- first-request family: see the head of the file
+static int first_mode(unsigned T, unsigned R, uint64_t seed, const char* spec) {
+  static const std::vector<unsigned> kLens = {8, 9, 64, 100, 1000, 8, 16, 3, 65, 128, 2, 63, 32, 1, 256, 511};
+  FirstCfg fc;
+  if (sscanf(spec, "%u:%u", &fc.mode, &fc.stagger) < 2 || fc.mode > 4) { fprintf(stderr, "conc18: bad VERIF_FIRST\n"); return 2; }
+  const char* sl = getenv("VERIF_SLOWSEED");
+  if (sl && *sl && sscanf(sl, "%u:%u:%u", &g_slow_pre, &g_slow_chunk, &g_slow_gap) < 3) { fprintf(stderr, "conc18: bad VERIF_SLOWSEED\n"); return 2; }
+  vh::Rng rng(seed * 4177 + 5);
+  fc.delay_us.assign(T, 0);
+  for (unsigned i = 0; i < T; i++) {
+    switch (fc.mode) {
+      case 1: fc.delay_us[i] = (uint64_t)i * fc.stagger; break;
+      case 2: fc.delay_us[i] = i ? fc.stagger : 0; break;
+      case 3: fc.delay_us[i] = rng.below((uint64_t)T * fc.stagger + 1); break;
+      default: break;
+    }
+  }
+  if (fc.mode == 1 || fc.mode == 2) {     // any thread may be the early one
+    unsigned rot = (unsigned)rng.below(T);
+    std::rotate(fc.delay_us.begin(), fc.delay_us.begin() + rot, fc.delay_us.end());
+  }
+  const size_t N = (size_t)T * R;
+  std::vector<uint64_t> refs(N + 16);
+  for (size_t k = 0; k < refs.size(); k++) refs[k] = k;
+  char lhs[160];
+  snprintf(lhs, sizeof lhs, "conc18f %u %u %u %u %u %u %zu", T, fc.mode, fc.stagger, g_slow_pre, g_slow_chunk, g_slow_gap, N);
+  return burst(lhs, T, R, seed, 0, kLens, true, {}, refs, &fc);
 }
 
 // ---- boundary mode: see the head of the file
@@ -359,6 +487,8 @@ int main() {
   for (auto& b : g_key) b = (unsigned char)kr.next();
   const char* bspec = getenv("VERIF_BOUNDARY");
   if (bspec && *bspec) return boundary_mode(T, seed, bspec);
+  const char* fspec = getenv("VERIF_FIRST");
+  if (fspec && *fspec) return first_mode(T, (unsigned)vh::env_u64("VERIF_REQS", 3), seed, fspec);
   int rc = phase1(T, R, seed);
   if (rc == 3) return 3;
   rc |= phase2(T < 4 ? 4 : T, vh::thorough() ? 600 : 120);
